@@ -13,7 +13,8 @@ LEVEL = ("Static agreement of the three element loops of every SIMD kernel (impl
          "slices (no skip/take/step_by/chunks/nth/...) and finiteness predicates are applied per element, not to an aggregate (K8). Rounding / "
          "summation-order error is not decided."
          " Added: the backend keeps no state between kernel calls (K9); a Math default inherited by CpuMath does no floating-point arithmetic of its own (K10); no unsafe code / inline assembly in math::* (K11)."
-         " Added (round 5): outside the scale-update kernels no min / max / clamp / abs on an f64 in the CPU backend and math::util (K12).")
+         " Added (round 5): outside the scale-update kernels no min / max / clamp / abs on an f64 in the CPU backend and math::util (K12)."
+         " Added (round 6): scalars cross the backend boundary unmodified (K13).")
 EXPLANATION = ("HIR of each with_simd body: provenance of slice pieces through S::as_simd_f64s / pulp::as_arrays, operand lists of the izip! loops, symbolic "
                "evaluation of the closure bodies (SIMD intrinsics translated to +,-,*) with per-lane renaming, comparison of normal forms.")
 TRUSTED = ["rustc nightly HIR (macro-expanded izip!)", "nutsfacts extractor", "rules/kernel.py, rules/c17.py",
@@ -708,6 +709,38 @@ def k12(F, R):
         R.missing("C17-K12", "CPU backend methods (found %d)" % n)
 
 
+
+def forwarded_scalars(F, R, rid="C17-K13"):
+    """The CPU backend hands the caller's scalars to the math::util kernels as they are (shared with C02)."""
+    R.rule(rid, "adapter transparency: where a method of `impl Math for CpuMath` delegates to a math::util kernel, every f64 argument of that call is one of the "
+                "method's own f64 parameters, unmodified (or a literal): the Math trait's scalar (a step size, an axpy factor) means the same thing on both "
+                "sides of the backend boundary - no halving, negation or rescaling in between")
+    adt = "cpu_math::CpuMath"
+    n = 0
+    for b in sorted(F.bodies.values(), key=lambda x: x.path):
+        if b.kind == "closure" or not b.parent.get("trait") or not path_ends(b.parent["trait"], "math::Math") \
+                or not path_ends(b.parent.get("self_adt") or "", adt):
+            continue
+        for bb, t in b.calls():
+            c = t["callee"]
+            p = c.get("resolved") or c.get("path") or ""
+            if "math::util::" not in p:
+                continue
+            for i, a in enumerate(t["args"]):
+                ty = b.local_ty(a["pl"]["l"]) if a.get("pl") else a.get("ty")
+                if ty != "f64":
+                    continue
+                v = b.value(a)
+                key = "%s:%s#%d" % (b.path, p.split("::")[-1], i)
+                site = "%s @%s" % (b.path, loc(t["span"]))
+                n += 1
+                if v[0] == "arg" or v[0] == "const":
+                    R.ok(rid, key, site, "scalar argument %d of %s is the parameter `%s`" % (i, p.split("::")[-1], vt_str(v)))
+                else:
+                    R.bad(rid, key, site, "scalar argument %d of %s is `%s`, not the method's own parameter: the backend rescales the caller's scalar on the way "
+                          "to the kernel" % (i, p.split("::")[-1], vt_str(v)[:80]))
+    R.floor(rid, 5)
+
 def run(F, R, config=None):
     R.rule("C17-K1", "each slice operand of a kernel is split exactly once by S::as_(mut_)simd_f64s and its head exactly once by pulp::as_arrays(_mut)::<4>")
     R.rule("C17-K2", "exactly three element loops (unrolled body, SIMD tail, scalar tail); each zips the corresponding piece of every operand exactly once")
@@ -726,6 +759,7 @@ def run(F, R, config=None):
     k10(F, R)
     k11(F, R)
     k12(F, R)
+    forwarded_scalars(F, R)
     R.floor("C17-K1", 25)
     R.floor("C17-K2", 40)
     R.floor("C17-K3", 40)
